@@ -294,6 +294,88 @@ func (g *pgen) printAction() string {
 	return "{{ " + e + " }}"
 }
 
+// callAction: one call in a random surface form (plain, prefix, piped, slot, chained), over reflected
+// fixed/variadic functions, jet.Func values and non-functions, with argument counts and kinds that
+// are sometimes wrong.
+func (g *pgen) callAction() string {
+	r := g.r
+	arg := func(k byte) string {
+		if r.Chance(5) {
+			return r.Pick([]string{"n", "np", "nope", "el", "nl"})
+		}
+		switch k {
+		case 's':
+			return g.strExpr(r.Intn(2))
+		case 'i':
+			if r.Chance(15) {
+				return r.Pick([]string{"f", "2.0", "1.5", "li[1]"})
+			}
+			return g.intExpr(r.Intn(2))
+		}
+		return g.anyExpr(r.Intn(2))
+	}
+	type fn struct {
+		name     string
+		kinds    string
+		variadic bool
+	}
+	fns := []fn{{"add3", "iii", false}, {"cat", "ss", true}, {"hasPrefix", "ss", false}, {"hasSuffix", "ss", false}, {"repeat", "si", false},
+		{"ident", "a", false}, {"rec", "a", true}, {"len", "a", false}, {"upper", "s", false}, {"lower", "s", false}, {"probe", "ia", false},
+		{"slice", "a", true}, {"s", "a", false}, {"nope", "a", false}, {"st.A", "", false}}
+	f := fns[r.Intn(len(fns))]
+	n := len(f.kinds)
+	if f.variadic {
+		n = len(f.kinds) - 1 + r.Intn(4)
+	}
+	if r.Chance(10) {
+		n += r.Intn(3) - 1
+		if n < 0 {
+			n = 0
+		}
+	}
+	var args []string
+	for k := 0; k < n; k++ {
+		kk := byte('a')
+		if k < len(f.kinds) {
+			kk = f.kinds[k]
+		} else if len(f.kinds) > 0 {
+			kk = f.kinds[len(f.kinds)-1]
+		}
+		args = append(args, arg(kk))
+	}
+	join := func(xs []string) string { return strings.Join(xs, ", ") }
+	tail := r.Pick([]string{"", "", "", " | raw", " | ident", " | upper", " | safeHtml | lower", " | raw | raw"})
+	form := r.Intn(6)
+	if n == 0 && form != 0 {
+		form = 0
+	}
+	switch form {
+	case 0:
+		return "{{ " + f.name + "(" + join(args) + ")" + tail + " }}"
+	case 1:
+		return "{{ " + f.name + ": " + join(args) + " }}"
+	case 2:
+		if n == 1 {
+			return "{{ " + args[0] + " | " + f.name + tail + " }}"
+		}
+		return "{{ " + args[0] + " | " + f.name + r.Pick([]string{"(" + join(args[1:]) + ")", ": " + join(args[1:])}) + tail + " }}"
+	case 3:
+		k := r.Intn(n)
+		with := append([]string{}, args...)
+		with[k] = "_"
+		if r.Chance(10) && n > 1 {
+			with[(k+1)%n] = "_" // two slots
+		}
+		return "{{ " + args[k] + " | " + f.name + r.Pick([]string{"(" + join(with) + ")", ": " + join(with)}) + tail + " }}"
+	case 4:
+		// slot marker with nothing piped, or nested call with a slot
+		with := append([]string{}, args...)
+		with[r.Intn(n)] = "_"
+		return "{{ " + r.Pick([]string{f.name + "(" + join(with) + ")", "ident(" + f.name + "(" + join(with) + "))", "s | ident(" + f.name + "(" + join(with) + "))"}) + " }}"
+	}
+	return "{{ " + g.strExpr(0) + " | ident | " + f.name + "(" + join(args[1:]) + ")" + tail + " }}"
+}
+
 func (g *pgen) list(d int) string {
 	n := 1 + g.r.Intn(3)
 	var sb strings.Builder
@@ -308,7 +390,7 @@ func (g *pgen) list(d int) string {
 var textBits = []string{"a", "b ", "<i>", "&", "\n", " ", "x'y", "é", "|"}
 
 func (g *pgen) weights() []interface{} {
-	w := map[string]int{"text": 4, "print": 6, "let": 2, "set": 1, "if": 3, "range": 3, "yield": 1, "include": 1, "try": 1, "exec": 1, "blockdef": 1, "issetp": 1, "content": 0}
+	w := map[string]int{"text": 4, "print": 6, "let": 2, "set": 1, "if": 3, "range": 3, "yield": 1, "include": 1, "try": 1, "exec": 1, "blockdef": 1, "issetp": 1, "content": 0, "call": 1}
 	switch g.flavor {
 	case "escape":
 		w["print"] = 12
@@ -339,12 +421,16 @@ func (g *pgen) weights() []interface{} {
 		w["let"] = 3
 	case "isset":
 		w["issetp"] = 8
+	case "calls":
+		w["call"] = 14
+		w["print"] = 3
+		w["let"] = 3
 	}
 	if g.inBlk {
 		w["content"] = 3
 	}
 	out := []interface{}{}
-	for _, k := range []string{"text", "print", "let", "set", "if", "range", "yield", "include", "try", "exec", "blockdef", "issetp", "content"} {
+	for _, k := range []string{"text", "print", "let", "set", "if", "range", "yield", "include", "try", "exec", "blockdef", "issetp", "content", "call"} {
 		if w[k] > 0 {
 			out = append(out, k, w[k])
 		}
@@ -371,6 +457,9 @@ func (g *pgen) stmt(d int) string {
 		return r.Pick(textBits)
 	case "print":
 		return g.printAction()
+	case "call":
+		g.tag("call")
+		return g.callAction()
 	case "let":
 		name := r.Pick([]string{"x", "y", "w", "i", "s"})
 		g.lets = append(g.lets, name)
